@@ -99,6 +99,12 @@ func init() {
 		"(*sync.RWMutex).RUnlock":         extRUnlock,
 		"(*sync.RWMutex).TryRLock":        extTryRLock,
 		"(*sync.Once).Do":                 extOnceDo,
+		"(*github.com/sasha-s/go-deadlock.Mutex).Lock":      extMutexLock,
+		"(*github.com/sasha-s/go-deadlock.Mutex).Unlock":    extMutexUnlock,
+		"(*github.com/sasha-s/go-deadlock.RWMutex).Lock":    extMutexLock,
+		"(*github.com/sasha-s/go-deadlock.RWMutex).Unlock":  extMutexUnlock,
+		"(*github.com/sasha-s/go-deadlock.RWMutex).RLock":   extRLock,
+		"(*github.com/sasha-s/go-deadlock.RWMutex).RUnlock": extRUnlock,
 		"(*sync.Once).doSlow":             nil,
 		"(*sync.Pool).Get":                extPoolGet,
 		"(*sync.Pool).Put":                func(fr *frame, args []value) value { return nil },
